@@ -774,11 +774,23 @@ def decorate_with_checker(func: CallableT) -> CallableT:
                     resolved_kwargs["OLD"] = await _capture_old_async(
                         snapshots=snapshots, resolved_kwargs=resolved_kwargs
                     )
+            finally:
+                in_progress.discard(id_func)
 
-                # Ideally, we would catch any exception here and strip the checkers from the traceback.
-                # Unfortunately, this can not be done in Python 3, see
-                # https://stackoverflow.com/questions/44813333/how-can-i-elide-a-function-wrapper-from-the-traceback-in-python-3
-                result = await func(*args, **kwargs)
+            # The contract checking is suspended only while the contracts of the function are being checked.
+            # During the execution of the function itself, the calls to the function (*e.g.*, a recursion or
+            # a call of the same method on another instance) are checked as any other call.
+
+            # Ideally, we would catch any exception here and strip the checkers from the traceback.
+            # Unfortunately, this can not be done in Python 3, see
+            # https://stackoverflow.com/questions/44813333/how-can-i-elide-a-function-wrapper-from-the-traceback-in-python-3
+            result = await func(*args, **kwargs)
+
+            if not postconditions:
+                return result
+
+            try:
+                in_progress.add(id_func)
 
                 if postconditions:
                     resolved_kwargs["result"] = result
@@ -853,11 +865,23 @@ def decorate_with_checker(func: CallableT) -> CallableT:
                     resolved_kwargs["OLD"] = _capture_old(
                         snapshots=snapshots, resolved_kwargs=resolved_kwargs, func=func
                     )
+            finally:
+                in_progress.discard(id_func)
 
-                # Ideally, we would catch any exception here and strip the checkers from the traceback.
-                # Unfortunately, this can not be done in Python 3, see
-                # https://stackoverflow.com/questions/44813333/how-can-i-elide-a-function-wrapper-from-the-traceback-in-python-3
-                result = func(*args, **kwargs)
+            # The contract checking is suspended only while the contracts of the function are being checked.
+            # During the execution of the function itself, the calls to the function (*e.g.*, a recursion or
+            # a call of the same method on another instance) are checked as any other call.
+
+            # Ideally, we would catch any exception here and strip the checkers from the traceback.
+            # Unfortunately, this can not be done in Python 3, see
+            # https://stackoverflow.com/questions/44813333/how-can-i-elide-a-function-wrapper-from-the-traceback-in-python-3
+            result = func(*args, **kwargs)
+
+            if not postconditions:
+                return result
+
+            try:
+                in_progress.add(id_func)
 
                 if postconditions:
                     resolved_kwargs["result"] = result
